@@ -49,6 +49,11 @@ def handle (j : Json) : Except String Json := do
     let seq ← (← Drv.arr? j "seq").toList.mapM fun b => (fromJson? b : Except String String)
     let okk := loggerSeq seq false false
     return Json.mkObj [("m", Json.mkObj [("child", if okk then "ok" else "abort")])]
+  else if fam == "request_time" then
+    -- `VariableKind::RequestTime => request.created_at.map(|d| d.to_rfc2822())`: chrono panics when the year is
+    -- negative or has more than four digits
+    let year ← (j.getObjValAs? Int "year")
+    return Json.mkObj [("m", Json.mkObj [("panics", Json.bool (year < 0 || year > 9999))])]
   else
     -- search families: the model's prediction is "returns normally"
     return Json.mkObj [("m", Json.mkObj [("ok", Json.bool true)])]
